@@ -12,7 +12,7 @@ META = {
     'functions': ['xrspatial.zonal.stats', 'xrspatial.zonal._stats_numpy', 'xrspatial.zonal._sort_and_stride', 'xrspatial.zonal._strides', 'xrspatial.zonal._calc_stats',
                   'xrspatial.zonal._stats_count', 'xrspatial.utils.validate_arrays'],
     'bounds': {'quick': 'zones / values rasters of 3 cells (1x3; zone ids symbolic reals that may be NaN or +-inf, values NaN or +-inf, nodata symbolic) for every statistic, a user reducer, '
-                        'zone_ids None / [z] / [z1, z2] in any order incl. absent ids, both return types; 4 cells (2x2) for count / sum / max with finite-or-NaN zones',
+                        'zone_ids None / [z] / [z1, z2] in any order incl. absent ids, both return types; 4 cells (2x2) for count / sum / max with finite-or-NaN zones; integer zones (int32 / int64 / uint8 in a small range) with float64, float32 or int32 values',
                'thorough': '4 cells (1x4, 2x2) for every statistic and selection'},
     'stubs': ['numba.jit = identity', 'pandas.DataFrame = sx.minipd', 'np.argsort / np.unique on symbolic data = forking insertion sort (NaN last)',
               'boolean-mask selection = lazily compressed array (reductions by ite over the mask)'],
